@@ -87,7 +87,11 @@ func load(c px.Context, name px.TypedName) (interface{}, bool) {
 
 func (l *basicLoader) Discover(c px.Context, predicate func(tn px.TypedName) bool) []px.TypedName {
 	found := make([]px.TypedName, 0)
-	for k := range l.namedEntries {
+	for k, e := range l.namedEntries {
+		if e.Value() == nil {
+			// a cached miss is not a binding
+			continue
+		}
 		tn := px.TypedNameFromMapKey(k)
 		if predicate(tn) {
 			found = append(found, tn)
@@ -153,7 +157,11 @@ func (l *basicLoader) NameAuthority() px.URI {
 func (l *parentedLoader) Discover(c px.Context, predicate func(tn px.TypedName) bool) []px.TypedName {
 	found := l.parent.Discover(c, predicate)
 	added := false
-	for k := range l.namedEntries {
+	for k, e := range l.namedEntries {
+		if e.Value() == nil {
+			// a cached miss is not a binding
+			continue
+		}
 		tn := px.TypedNameFromMapKey(k)
 		if !l.parent.HasEntry(tn) {
 			if predicate(tn) {
